@@ -16,7 +16,10 @@ var (
 		{0x02}, {0xfe}, {0xfe, 0xff}, {0xff}, {0xff, 0x00}, {0xff, 0xfe}, {0xff, 0xff}, {0xff, 0xff, 0x01},
 	}
 	valAlphabet    = [][]byte{{}, {0x00}, {0xaa}, {0xbb, 0xcc}, {0xff}}
-	prefixAlphabet = [][]byte{{}, {0x00}, {0x01}, {0x01, 0xff}, {0x02}, {0xfe}, {0xff}, {0xff, 0xff}, {0x01, 0x01}, {0x03}}
+	// (0xff-terminated prefixes: the bound is CUT after the incremented byte — {0x01,0xff} -> {0x02} —, and the
+	// key alphabet holds the key that IS that bound and keys right above it)
+	prefixAlphabet = [][]byte{{}, {0x00}, {0x01}, {0x01, 0xff}, {0x02}, {0xfe}, {0xff}, {0xff, 0xff}, {0x01, 0x01}, {0x03},
+		{0x00, 0xff}, {0xfe, 0xff}, {0x01, 0xff, 0xff}, {0xfe, 0xff, 0xff}, {0x01, 0xfe, 0xff}}
 	boundAlphabet  = [][]byte{
 		{}, {0x00}, {0x01}, {0x01, 0x00}, {0x01, 0xff}, {0x01, 0xff, 0xff}, {0x02}, {0x03}, {0xfe}, {0xff},
 		{0xff, 0xff}, {0xff, 0xff, 0xff},
@@ -211,6 +214,9 @@ func (g *Gen) Next() Op {
 			if g.r.Chance(1, 8) {
 				return Op{K: "psize", Key: p, U: u, NilB: nb}
 			}
+			if g.r.Chance(1, 40) {
+				return Op{K: "path"}
+			}
 			if g.r.Chance(1, 4) {
 				return Op{K: "rscan", Src: g.src(), Key: p, U: u, Key2: g.bound(), NilB: nb}
 			}
@@ -228,7 +234,7 @@ func (g *Gen) Next() Op {
 				wrap = lib.Pick(g.r, []string{"", "", "", "sync", "buffer"})
 			}
 			g.batches = append(g.batches, genBatch{live: true, idx: idx, buffer: wrap == "buffer"})
-			return Op{K: "newbatch", Idx: idx, U: g.r.Chance(1, 4), Wrap: wrap}
+			return Op{K: "newbatch", Idx: idx, U: g.r.Chance(1, 4), Key2: []byte{byte(g.r.Intn(12))}, Wrap: wrap}
 		case c < 55:
 			if b := g.liveBatch(false); b >= 0 {
 				if g.batches[b].buffer && g.r.Chance(1, 4) {
